@@ -95,6 +95,49 @@ fn any_stream_body<const N: usize, const CAP: usize>(storage: bool) {
     std::mem::forget(reader);
 }
 
+/// Storage-header mode of the reader: 16 literal storage-header bytes, then up to 6 arbitrary bytes (standard
+/// header with any declared length + payload), stream length arbitrary (also cut inside the storage header),
+/// any schedule: no panic, a slice only if it is the cut at 16 + declared length, a complete message is delivered.
+#[kani::proof]
+#[kani::unwind(26)]
+#[kani::stub(std::fmt::format, crate::models::fmt_format_stub)]
+fn c07_any_stream_storage_22() {
+    const N: usize = 22;
+    const CAP: usize = 24;
+    let d: [u8; 6] = kani::any();
+    let data: [u8; N] = [0x44, 0x4C, 0x54, 0x01, 1, 2, 3, 4, 5, 6, 7, 8, b'E', b'C', b'U', 0, d[0], d[1], d[2], d[3], d[4], d[5]];
+    let len: usize = kani::any();
+    kani::assume(len <= N);
+    let declared = u16::from_be_bytes([d[2], d[3]]) as usize;
+    kani::assume(16 + declared <= CAP);
+    let src = any_src::<N>(data, len);
+    let mut reader = DltMessageReader::with_capacity(CAP, CAP, src, true);
+    let r = reader.next_message_slice();
+    match r {
+        Ok(slice) => {
+            if !slice.is_empty() {
+                assert!(len >= 20 && 16 + declared <= len, "a slice although the stream ends before the declared length");
+                assert!(slice.len() == 16 + declared, "slice is not cut at storage header + declared length");
+                let mut i = 0;
+                while i < slice.len() {
+                    assert!(slice[i] == data[i], "slice bytes differ from the stream");
+                    i += 1;
+                }
+                kani::cover!(slice.len() == N, "whole stream is one stored message");
+            } else {
+                kani::cover!(len > 16, "truncated stored message yields end-of-stream");
+            }
+        }
+        Err(_) => {
+            if len >= 20 {
+                assert!(declared < 4 || 16 + declared > len, "a stored message completely contained in the stream is not delivered");
+            }
+            kani::cover!(len >= 20, "error outcome");
+        }
+    }
+    std::mem::forget(reader);
+}
+
 /// The public constructor reserves a scratch buffer for a storage header plus the largest declarable message
 /// (and a buffered source at least that large), so the assumption of the harnesses above - the declared length
 /// fits the configured maximum - holds for EVERY 16-bit length field when the reader is built with `new()`.
